@@ -620,6 +620,17 @@ fn token_closes_context(token: &BorrowedToken, context: Context) -> bool {
     }
 }
 
+#[cfg(gluon_verif)]
+impl<'input, Tokens> Layout<'input, Tokens>
+where
+    Tokens: Iterator<Item = token::Result<SpannedToken<'input>>>,
+{
+    /// Verification hook: the next token after layout, with its full location
+    pub fn verif_next(&mut self) -> Result<SpannedToken<'input>> {
+        self.layout_next_token()
+    }
+}
+
 impl<'input, Tokens> Iterator for Layout<'input, Tokens>
 where
     Tokens: Iterator<Item = token::Result<SpannedToken<'input>>>,
